@@ -129,25 +129,49 @@ func decodeAll(conf map[string]any) outcome {
 		return out
 	}
 	out.conf = c
+	// The engine calls the gun factory once per instance (plus a warm-up probe) and, with rps-per-instance, the
+	// schedule factory once per instance: every call decodes the section again. A section that was accepted by the
+	// first call must be accepted by the following ones (reported like a panic: not a proper rejection).
+	const calls = 3
 	for i := range c.Engine.Pools {
 		p := &c.Engine.Pools[i]
 		if p.NewGun != nil {
-			if !stageCall(stageGun, &out, func() error {
-				g, err := p.NewGun()
-				if cl, ok := g.(io.Closer); ok && err == nil {
-					_ = cl.Close()
+			for k := 0; k < calls; k++ {
+				if !stageCall(stageGun, &out, func() error {
+					g, err := p.NewGun()
+					if cl, ok := g.(io.Closer); ok && err == nil {
+						_ = cl.Close()
+					}
+					return err
+				}) {
+					if k > 0 {
+						out.panicked = true
+						out.err = fmt.Errorf("NewGun() call #%d failed after call #1 had succeeded with the same section: %v", k+1, out.err)
+					}
+					return out
 				}
-				return err
-			}) {
-				return out
 			}
 		}
 		if p.NewRPSSchedule != nil {
-			if !stageCall(stageRPS, &out, func() error {
-				_, err := p.NewRPSSchedule()
-				return err
-			}) {
-				return out
+			left := 0
+			for k := 0; k < calls; k++ {
+				if !stageCall(stageRPS, &out, func() error {
+					s, err := p.NewRPSSchedule()
+					if err == nil && s != nil {
+						if l := s.Left(); k == 0 {
+							left = l
+						} else if l != left {
+							return fmt.Errorf("schedule of call #%d holds %d tokens, the one of call #1 held %d", k+1, l, left)
+						}
+					}
+					return err
+				}) {
+					if k > 0 {
+						out.panicked = true
+						out.err = fmt.Errorf("NewRPSSchedule() call #%d failed after call #1 had succeeded with the same section: %v", k+1, out.err)
+					}
+					return out
+				}
 			}
 		}
 	}
